@@ -6,6 +6,8 @@
 
 package strutil
 
+import "strings"
+
 // ---- spec functions ---------------------------------------------------------
 
 //@ func specOrd
@@ -147,6 +149,27 @@ func specSub(a, b string) int {
 	return specSub(a[fa:], b[fb:])
 }
 
+//@ func specVer
+//@   pure
+
+// what VersionCompare computes for epoch-less versions: split at the last '-', the
+// revision defaulting to "0"; compare upstream parts, then revisions
+func specVer(a, b string) int {
+	ia, ib := strings.LastIndexByte(a, '-'), strings.LastIndexByte(b, '-')
+	ua, ra := a, "0"
+	if ia >= 0 {
+		ua, ra = a[:ia], a[ia+1:]
+	}
+	ub, rb := b, "0"
+	if ib >= 0 {
+		ub, rb = b[:ib], b[ib+1:]
+	}
+	if r := specSub(ua, ub); r != 0 {
+		return r
+	}
+	return specSub(ra, rb)
+}
+
 // ---- contracts on the real functions ------------------------------------------
 
 //@ func max
@@ -161,9 +184,163 @@ func specSub(a, b string) int {
 //@ func trimLeadingZeroes
 //@   props C33
 //@   ensures result == a[specLeadZ(a, 0):]
+//@   ensures 0 <= specLeadZ(a, 0) && specLeadZ(a, 0) <= len(a)
 //@   loop 0: invariant 0 <= i && i <= len(a) && specLeadZ(a, 0) == i + specLeadZ(a, i)
 
 //@ func matchEpoch
 //@   props C33
 //@   ensures result == specHasEpoch(a)
 //@   loop 0: invariant 1 <= i && i <= len(a) && specRunEnd(a, 0, true) == specRunEnd(a, i, true)
+
+//@ func versionIsValid
+//@   props C33
+//@   ensures result == !specHasEpoch(a)
+
+//@ func cmpNumeric
+//@   props C33
+//@   ensures result == specCmpNum(old(a), old(b))
+//@   loop 0: invariant 0 <= i && i <= len(a) && len(a) == len(b) && specLex(a, b, 0) == specLex(a, b, i)
+//@   loop 0: invariant a == old(a)[specLeadZ(old(a), 0):] && b == old(b)[specLeadZ(old(b), 0):]
+
+//@ func nextFrag
+//@   props C33
+//@   ensures frag == s[:specFragLen(s)] && rest == s[specFragLen(s):]
+//@   ensures numeric == (len(s) > 0 && isDigit(s[0]))
+//@   ensures 0 <= specFragLen(s) && specFragLen(s) <= len(s) && ((len(s) > 0) == (specFragLen(s) > 0))
+//@   loop 0: invariant 1 <= i && i <= len(s) && specRunEnd(s, 1, true) == specRunEnd(s, i, true)
+//@   loop 1: invariant 1 <= i && i <= len(s) && specRunEnd(s, 1, false) == specRunEnd(s, i, false)
+
+//@ func compareSubversion
+//@   props C33
+//@   ensures result == specSub(old(va), old(vb))
+//@   loop 0: invariant specSub(old(va), old(vb)) == ite(res != 0, res, specSub(va, vb))
+
+//@ func VersionCompare
+//@   props C33
+//@   ensures (specHasEpoch(old(va)) || specHasEpoch(old(vb))) ==> err != nil
+//@   ensures !(specHasEpoch(old(va)) || specHasEpoch(old(vb))) ==> err == nil && res == specVer(old(va), old(vb))
+
+// ---- lemmas: the specification is a consistent ordering ------------------------
+
+//@ func lemRunEndBounds
+//@   lemma
+//@   props C33
+//@   requires 0 <= i && i <= len(s)
+//@   ensures i <= specRunEnd(s, i, digit) && specRunEnd(s, i, digit) <= len(s)
+//@   decreases len(s) - i
+
+func lemRunEndBounds(s string, i int, digit bool) {
+	if i >= len(s) || isDigit(int(s[i])) != digit {
+		return
+	}
+	lemRunEndBounds(s, i+1, digit)
+}
+
+//@ func lemCmpStrRefl
+//@   lemma
+//@   props C33
+//@   requires 0 <= i
+//@   ensures specCmpStr(a, a, i) == 0
+//@   decreases len(a) - i
+
+func lemCmpStrRefl(a string, i int) {
+	if i >= len(a) {
+		return
+	}
+	lemCmpStrRefl(a, i+1)
+}
+
+//@ func lemCmpStrAntisym
+//@   lemma
+//@   props C33
+//@   requires 0 <= i
+//@   ensures specCmpStr(a, b, i) == -specCmpStr(b, a, i)
+//@   decreases max(len(a), len(b)) - i
+
+func lemCmpStrAntisym(a, b string, i int) {
+	if i >= max(len(a), len(b)) {
+		return
+	}
+	lemCmpStrAntisym(a, b, i+1)
+}
+
+//@ func lemLexAntisym
+//@   lemma
+//@   props C33
+//@   requires 0 <= i
+//@   ensures specLex(a, b, i) == -specLex(b, a, i)
+//@   decreases len(a) - i
+
+func lemLexAntisym(a, b string, i int) {
+	if i >= len(a) || i >= len(b) {
+		return
+	}
+	lemLexAntisym(a, b, i+1)
+}
+
+//@ func lemLeadZBounds
+//@   lemma
+//@   props C33
+//@   requires 0 <= i && i <= len(s)
+//@   ensures 0 <= specLeadZ(s, i) && i + specLeadZ(s, i) <= len(s)
+//@   decreases len(s) - i
+
+func lemLeadZBounds(s string, i int) {
+	if i >= len(s) || s[i] != '0' {
+		return
+	}
+	lemLeadZBounds(s, i+1)
+}
+
+//@ func lemCmpNumAntisym
+//@   lemma
+//@   props C33
+//@   ensures specCmpNum(a, b) == -specCmpNum(b, a)
+
+func lemCmpNumAntisym(a, b string) {
+	lemLeadZBounds(a, 0)
+	lemLeadZBounds(b, 0)
+	lemLexAntisym(a[specLeadZ(a, 0):], b[specLeadZ(b, 0):], 0)
+}
+
+//@ func lemSubAntisym
+//@   lemma
+//@   props C33
+//@   ensures specSub(a, b) == -specSub(b, a)
+//@   decreases len(a) + len(b)
+
+// specSub(a,b) = -specSub(b,a): the comparison is antisymmetric, hence a<b iff b>a and a==a.
+func lemSubAntisym(a, b string) {
+	fa, fb := specFragLen(a), specFragLen(b)
+	if fa == 0 && fb == 0 {
+		return
+	}
+	if len(a) > 0 {
+		lemRunEndBounds(a, 1, isDigit(int(a[0])))
+	}
+	if len(b) > 0 {
+		lemRunEndBounds(b, 1, isDigit(int(b[0])))
+	}
+	lemCmpNumAntisym(a[:fa], b[:fb])
+	lemCmpStrAntisym(a[:fa], b[:fb], 0)
+	lemSubAntisym(a[fa:], b[fb:])
+}
+
+//@ func lemVerAntisym
+//@   lemma
+//@   props C33
+//@   ensures specVer(a, b) == -specVer(b, a)
+
+func lemVerAntisym(a, b string) {
+	ia, ib := strings.LastIndexByte(a, '-'), strings.LastIndexByte(b, '-')
+	ua, ra := a, "0"
+	if ia >= 0 {
+		ua, ra = a[:ia], a[ia+1:]
+	}
+	ub, rb := b, "0"
+	if ib >= 0 {
+		ub, rb = b[:ib], b[ib+1:]
+	}
+	lemSubAntisym(ua, ub)
+	lemSubAntisym(ra, rb)
+}
